@@ -319,6 +319,16 @@ class G:
             out.append(t.decl)
             out.append(t.genimpl)
             out.append("")
+        # every primitive width once under Option, in a Vec of Options and as map values: the union branch has to be found from
+        # the Rust type alone (u32 maps to long, u8 / u16 / i8 / i16 to int, ...)
+        prims = ["bool", "i8", "i16", "i32", "i64", "u16", "u32", "u64", "usize", "f32", "f64", "String"]
+        k = self.fresh("P")
+        opt = f"OptPrims{k}"
+        flds = [f"\tpub o_{p.lower()}: Option<{p}>," for p in prims] + [f"\tpub v_{p.lower()}: Vec<Option<{p}>>," for p in ("u32", "u16", "i8", "u64")] + ["\tpub m_u32: std::collections::BTreeMap<String, Option<u32>>,"]
+        out.append("\n".join([self.DERIVES, f"pub struct {opt} {{"] + flds + ["}"]))
+        inits = [f"o_{p.lower()}: Gen::gen(r, d + 1)," for p in prims] + [f"v_{p.lower()}: Gen::gen(r, d + 1)," for p in ("u32", "u16", "i8", "u64")] + ["m_u32: Gen::gen(r, d + 1),"]
+        out.append(f"impl Gen for {opt} {{\n\tfn gen(r: &mut Rng, d: usize) -> Self {{\n\t\t{opt} {{\n\t\t\t" + "\n\t\t\t".join(inits) + "\n\t\t}\n\t}\n}")
+        opt_prims = (opt, self.fullname_of(opt, None))
         # mutually recursive family: an enum-as-union two of whose record variants contain the enum again (so the union node is
         # entered more than twice while its schema is written), one of them twice
         k = self.fresh("X")
@@ -379,6 +389,7 @@ class G:
                 checks.append((t.name, t.name, t.fullname if t.kind in ("struct", "unit_enum") else None))
         for name, full in recursive_family:
             checks.append((name, name, full))
+        checks.append((opt_prims[0], opt_prims[0], opt_prims[1]))
         out.append("pub fn run_all(rt: &mut Runtime) {")
         for ty, ident, full in checks:
             out.append(f"\trt.check::<{ty}>({json.dumps(ident)});")
